@@ -101,6 +101,27 @@ theorem written_mem (W : Writes) (field : String) (hw : written W field = true) 
 
 /-! ### B -/
 
+/-- a decoder that never reports more bytes than it was given -/
+def Within (newTx : Bytes → Option Nat) : Prop := ∀ b n, newTx b = some n → n ≤ b.length
+
+theorem txLoop_noPanic (newTx : Bytes → Option Nat) (hw : Within newTx) (k : Nat) (rest : Bytes) :
+    ∀ s, txLoop newTx k rest ≠ .panic s := by
+  induction k generalizing rest with
+  | zero => intro s h; simp [txLoop] at h
+  | succ k ih =>
+    intro s h
+    unfold txLoop at h
+    cases hn : newTx rest with
+    | none => simp [hn] at h
+    | some n =>
+      simp only [hn] at h
+      by_cases h0 : (n == 0) = true
+      · simp [h0] at h
+      · have hle := hw rest n hn
+        have : ¬ n > rest.length := by omega
+        simp only [h0, this, Bool.false_eq_true, ↓reduceIte] at h
+        exact ih _ s h
+
 theorem buildTxList_pos (newTx : Bytes → Option Nat) (raw : Bytes) (n : Nat)
     (h : buildTxList true newTx raw = .ok n) : 1 ≤ n := by
   unfold buildTxList txCountHead at h
@@ -113,18 +134,33 @@ theorem buildTxList_pos (newTx : Bytes → Option Nat) (raw : Bytes) (n : Nat)
     · simp [hc] at h
     · have : (true && cnt == 0) = false := by simp [hc]
       simp only [this] at h
-      by_cases hl : txLoop newTx cnt rest = true
-      · simp [hl] at h
-        omega
-      · simp [hl] at h
+      cases hl : txLoop newTx cnt rest with
+      | done => simp [hl] at h; omega
+      | failed => simp [hl] at h
+      | panic s => simp [hl] at h
 
-theorem postCheck_total (newTx : Bytes → Option Nat) (trusted : Bool) (raw : Bytes) (cbOk merkleOk : Bool) :
+theorem buildTxList_noPanic (g : Bool) (newTx : Bytes → Option Nat) (hw : Within newTx) (raw : Bytes) :
+    ∀ s, buildTxList g newTx raw ≠ .panic s := by
+  intro s h
+  unfold buildTxList at h
+  cases ht : txCountHead g raw with
+  | error e => simp [ht] at h
+  | ok p =>
+    obtain ⟨cnt, rest⟩ := p
+    simp only [ht] at h
+    cases hl : txLoop newTx cnt rest with
+    | done => simp [hl] at h
+    | failed => simp [hl] at h
+    | panic s' => exact txLoop_noPanic newTx hw cnt rest s' hl
+
+theorem postCheck_total (newTx : Bytes → Option Nat) (hw : Within newTx) (trusted : Bool) (raw : Bytes) (cbOk merkleOk : Bool) :
     (postCheck true newTx trusted raw cbOk merkleOk).isPanic = false := by
   unfold postCheck
   split
   · rfl
   · cases hb : buildTxList true newTx raw with
     | error e => rfl
+    | panic s => exact absurd hb (buildTxList_noPanic true newTx hw raw s)
     | ok n =>
       have hn := buildTxList_pos newTx raw n hb
       simp only []
